@@ -55,8 +55,41 @@ def gen(rng, tier):
     if rng.random() < 0.25:
         fault = {"kind": rng.choice(["fs.write", "fs.tmpname", "fs.open", "fs.close", "fs.read", "fs.unlink"]),
                  "nth": rng.choice([0, 0, 1, 2, 3]), "mode": rng.choice(["error", "error", "crash"])}
+    updates = []
+    if not custom and not fault and not long_run and rng.random() < 0.5:
+        exons = [f for f in feats if f["cols"][2] == "exon"]
+        for ui in range(rng.choice([1, 1, 2])):
+            kind = rng.choice(["new_genes", "new_transcript_in_old_gene"]) if exons else "new_genes"
+            if kind == "new_genes":
+                uf = []
+                while not uf:
+                    uf = G.gtf_annotation(rng, {"max_genes": 2, "max_tx": 2})
+                for f in uf:
+                    for kv in f["attrs"]:
+                        if kv[0] in ("gene_id", "transcript_id"):
+                            kv[1] = ["U%d%s" % (ui, kv[1][0])]
+            else:
+                # a further transcript of a gene that is already stored, its exons inside the gene's present extent
+                e0 = rng.choice(exons)
+                g = [v for k, v in e0["attrs"] if k == "gene_id"][0][0]
+                same = [e for e in exons if [v for k, v in e["attrs"] if k == "gene_id"][0][0] == g]
+                uf = []
+                for e in rng.sample(same, min(len(same), rng.choice([1, 2]))):
+                    uf.append(G.mf(list(e["cols"]), [["gene_id", [g]], ["transcript_id", ["UT%d" % ui]]]))
+            upd = {"feats": uf, "form": rng.choice(["list", "gen", "path", "string"]), "kind": kind}
+            if rng.random() < 0.4:
+                # the first attempt's source fails after the dialect peek; the call is then retried on the same handle
+                upd["fail_first_at"] = rng.randint(min(2, len(uf)), len(uf))
+                upd["checklines"] = 0
+            updates.append(upd)
+    pair = None
+    if not custom and not fault and not long_run and rng.random() < 0.15:
+        f2 = []
+        while not f2:
+            f2 = G.gtf_annotation(rng, {"max_genes": 3, "max_tx": 2})
+        pair = {"feats": f2, "sched_seed": rng.getrandbits(32), "policy": rng.choice(["uniform", "bursty", "rr", "pileup"])}
     return {"feats": feats, "custom": custom, "kw": kw, "form": rng.choice(["path", "string", "list", "gen"]),
-            "after": rng.choice(["none", "reopen", "restart", "restart"]), "fault": fault}
+            "after": rng.choice(["none", "reopen", "restart", "restart"]), "fault": fault, "updates": updates, "pair": pair}
 
 
 def check(model, case, d, V, where):
@@ -106,6 +139,52 @@ def check(model, case, d, V, where):
                               q=k, explicit=not model.feats[i].get("derived") and model.feats[i]["cols"][2] in ("gene", "transcript")))
                 return False
     return True
+
+
+def _pair(case, kw, id_spec, V, probes, journal, out):
+    """Two GTF imports at the same time in two processes sharing the temp dir, released one file-system seam
+    point at a time: both databases must satisfy the law for their own input."""
+    import os
+    import random
+    from sim.sched import lockstep, sched_str
+
+    inputs = [case["feats"], case["pair"]["feats"]]
+    models = []
+    for feats in inputs:
+        m = Model("gtf")
+        m.gtf["dig"] = bool(kw.get("disable_infer_genes"))
+        m.gtf["dit"] = bool(kw.get("disable_infer_transcripts"))
+        m.import_gtf(feats, strategy="error", id_spec=id_spec)
+        models.append(m)
+    rng = random.Random(case["pair"]["sched_seed"])
+    with World("c03p_") as w:
+        ns = []
+        for i in range(2):
+            os.makedirs(w.p("d%d" % i))
+            ns.append(w.node(lockstep_kinds=("fs.tmpname", "fs.open", "fs.close", "fs.unlink")))
+
+        def req(i):
+            return {"op": "create", "h": "h", "db": "d%d/annotation.db" % i, "kw": dict(kw, merge_strategy="error"),
+                    "data": G.source_spec(None, inputs[i], form="path", d=G.DEFAULT_GTF, name="pair%d.gtf" % i)}
+
+        ph = lockstep(w, ns, req, rng, case["pair"]["policy"], None, journal, ())
+        for i in range(2):
+            r = ph["result"][i]
+            if r is None or not r["ok"]:
+                V.append(viol("C03.concurrent", "one of two concurrent GTF imports failed: %s %s (schedule %s)" % (
+                    r and r.get("exc"), r and r.get("msg"), sched_str(ph["sched"])), kind="concurrent_import_failed"))
+                continue
+            d = w.call(ns[i], {"op": "dump", "h": "h"})
+            if not d["ok"]:
+                V.append(viol("C03.concurrent", "database of a concurrent import unreadable: %s" % d["msg"], kind="concurrent_unreadable"))
+            else:
+                check(models[i], case, d["dump"], V, "concurrent import %d (schedule %s)" % (i, sched_str(ph["sched"])))
+        if ph["overlap"]:
+            probes["two_imports_temp_lifetimes_overlapped"] = 1
+        for n in ns:
+            n.close()
+        for k in ("nodes", "points", "ops"):
+            out["stats"][k] = out["stats"].get(k, 0) + w.stats.get(k, 0)
 
 
 def run(case):
@@ -162,7 +241,58 @@ def run(case):
                         if not g["ok"] or g["f"]["id"] != i:
                             V.append(viol("C03.derived", "db[%r] does not return the feature" % i, kind="not_retrievable"))
                             break
-                if case["after"] == "reopen":
+                for ui, upd in enumerate(case.get("updates") or []):
+                    if V:
+                        break
+                    ukw = dict(kw, merge_strategy="error", make_backup=False)
+                    pre_ids = set(model.order)
+                    if upd.get("fail_first_at") is not None:
+                        ukw["checklines"] = upd.get("checklines", 0)
+                        bad = G.source_spec(None, upd["feats"], form="gen", d=G.DEFAULT_GTF)
+                        bad["fail_at"] = upd["fail_first_at"]
+                        fr = call(node, {"op": "update", "h": "h", "data": bad, "kw": ukw})
+                        if fr["ok"]:
+                            V.append(viol("C03.update", "an update whose source fails was acknowledged", kind="failure_swallowed"))
+                            break
+                        call(node, {"op": "gc"})
+                        probes["update_failed_then_retried_on_same_handle"] = 1
+                    ur = call(node, {"op": "update", "h": "h", "data": G.source_spec(None, upd["feats"], form=upd["form"], d=G.DEFAULT_GTF), "kw": ukw})
+                    if not ur["ok"]:
+                        V.append(viol("C03.update", "update (%s) raised %s: %s" % (upd["kind"], ur["exc"], ur["msg"]), kind="update_failed",
+                                      exc=ur["exc"], retried=upd.get("fail_first_at") is not None))
+                        break
+                    model.import_gtf(upd["feats"], strategy="error", id_spec=id_spec)
+                    issued = list(model.auto_issued)
+                    du = call(node, {"op": "dump", "h": "h"})
+                    if not du["ok"]:
+                        V.append(viol("C03.update", "reading back after update failed: %s" % du["msg"], kind="read_failed"))
+                        break
+                    if upd.get("fail_first_at") is not None:
+                        # the failed attempt legitimately advanced the handle's in-memory counters: auto keys of the
+                        # retry may skip numbers (never reuse); pair them by base and order
+                        from checks.c10 import _rename_many, AUTO_RE
+                        new_store = [f["id"] for f in du["dump"]["features"] if f["id"] not in pre_ids]
+                        ren = {}
+                        for base in sorted(set(b for _, b, _ in issued)):
+                            mine = [k for k, b, _ in issued if b == base and k in model.feats and k not in pre_ids]
+                            theirs = [x for x in new_store if AUTO_RE.match(x) and AUTO_RE.match(x).group(1) == base]
+                            for a, b_ in zip(mine, theirs):
+                                if a != b_:
+                                    if int(AUTO_RE.match(b_).group(2)) <= int(AUTO_RE.match(a).group(2)) - 1 and b_ in pre_ids:
+                                        continue
+                                    ren[a] = b_
+                        if ren:
+                            _rename_many(model, ren)
+                            for b_ in ren.values():
+                                mm = AUTO_RE.match(b_)
+                                model.counters[mm.group(1)] = max(model.counters.get(mm.group(1), 0), int(mm.group(2)))
+                    if upd["kind"] == "new_transcript_in_old_gene":
+                        probes["update_adds_transcript_to_stored_gene"] = 1
+                    if not check(model, case, du["dump"], V, "after update #%d (%s%s)" % (ui, upd["kind"], ", retried after a source failure" if upd.get("fail_first_at") is not None else "")):
+                        break
+                if V:
+                    pass
+                elif case["after"] == "reopen":
                     call(node, {"op": "drop", "h": "h"})
                     call(node, {"op": "gc"})
                     call(node, {"op": "open", "h": "h", "db": "a.db"})
@@ -180,6 +310,8 @@ def run(case):
                         V.append(viol("C03.import", "fresh process cannot read: %s" % d2["msg"], kind="read_failed"))
                 out["digests"].add(core.digest(d["dump"]["features"]))
         out["stats"] = w.stats
+    if case.get("pair") and not V and not out.get("discarded"):
+        _pair(case, kw, id_spec, V, probes, journal, out)
     out["trace_hash"] = core.digest(journal)
     out["nontrivial"] = any(m["cols"][2] == "transcript" for m in model.feats.values())
     if len(case["feats"]) > 300:
